@@ -1,5 +1,5 @@
 """dev helper: verify selected functions and print verdicts"""
-import sys, time
+import os, sys, time
 from vk.engine import Program
 from vk.contracts import ContractDB
 from vk.verify import verify_function
@@ -13,7 +13,7 @@ if __name__ == '__main__':
     import os
     repo = os.environ.get('VK_REPO', '/repo')
     prog = Program({k: v.replace('/repo', repo) for k, v in FILES.items()})
-    db = ContractDB().load_dir('/verif/contracts')
+    db = ContractDB().load_dir(os.path.join(os.path.dirname(os.path.dirname(os.path.abspath(__file__))), 'contracts'))
     names = sys.argv[1:] or sorted(db.contracts)
     for q in names:
         flt = os.environ.get('VK_CASE')
